@@ -17,7 +17,7 @@ func main() {
 	deadline := time.Now().Add(3 * time.Minute)
 	if run.Thorough() {
 		cfgs = []cfg{{3, 2, 3}, {4, 1, 2}}
-		deadline = time.Now().Add(25 * time.Minute)
+		deadline = time.Now().Add(12 * time.Minute)
 	}
 	if run.Replay != "" {
 		var rp struct {
